@@ -7,6 +7,7 @@ CVR.tabulate_votes, Assertion.find_margin_from_tally, Contest.find_margins_from_
 Assertion.set_margin_from_cvrs.  Model side: Ballot.v / Assorter.v through Run_Assorter.v.
 (make_assertions_from_json builds only IRV assorters -- WINNER_ONLY / IRV_ELIMINATION -- which belong to C14/C04.)"""
 import itertools
+import os
 import math
 import warnings
 from fractions import Fraction as F
@@ -467,6 +468,9 @@ def observe(asn, kind, cvrs, polling, style):
     return o
 
 
+FAMILY_BAD = []
+
+
 def build_assertions(con, spec, W, L, via_all, positional=False):
     """the library builds the assorters; returns list of (kind, Assertion)"""
     A = AU()
@@ -486,6 +490,19 @@ def build_assertions(con, spec, W, L, via_all, positional=False):
         d = A.Assertion.make_plurality_assertions(con, W, L) if positional else \
             A.Assertion.make_plurality_assertions(contest=con, winner=W, loser=L)
         con.assertions = d
+    # the FAMILY of assertions (model: plurality_pairs W L / the single super-majority assertion; for make_all_assertions
+    # the regenerated gen_maa_tail): all assorter means exceed 1/2 iff the reported winners won only if no pair is missing
+    got = sorted((repr(a.winner), repr(a.loser)) for a in d.values())
+    if spec["scf"] == "SUPERMAJORITY":
+        want = [(repr(sorted(W)[0] if isinstance(W, set) else W[0]), repr(A.Contest.CANDIDATES.ALL_OTHERS))]
+    else:
+        want = sorted({(repr(w_), repr(l_)) for w_ in W for l_ in L})
+    if got != want:
+        FAMILY_BAD.append({"what": "assertion family differs from (reported winners) x (other candidates): "
+                                   + ("make_all_assertions" if via_all and spec["scf"] != "APPROVAL" else "direct builder"),
+                           "input": {"scf": spec["scf"], "candidates": C.jsonable(spec["cands"]), "winners": sorted(map(repr, W)),
+                                     "losers": sorted(map(repr, L)), "n_winners": repr(con.n_winners)},
+                           "observed": {"built (winner, loser)": got, "expected": want}})
     out = []
     for key, asn in d.items():
         if spec["scf"] == "SUPERMAJORITY":
@@ -1014,6 +1031,9 @@ def run(ctx, res):
         nonlocal a_cases, t_cases, m_cases
         ac, tc, mc, facts = result
         worlds.append(w)
+        res.oracle_runs += 1
+        while FAMILY_BAD:
+            res.oracle_violations.append(FAMILY_BAD.pop())
         a_cases += ac
         t_cases += tc
         m_cases += mc
@@ -1050,19 +1070,38 @@ def run(ctx, res):
     # ---- random and boundary worlds; a quarter of them in pairs that are built completely and then evaluated
     #      alternately (half of the pairs on the very same CVR objects)
     k = 0
+    impl_raised = [0]
     while k < n_worlds:
         w = gen_world(rng)
         w["setters_first"], w["prelude"] = rng.random() < 0.3, rng.random() < 0.25
-        if rng.random() < 0.25:
-            share = rng.random() < 0.5
-            w2 = variant_world(rng, w) if share else gen_world(rng)
-            r1, r2 = run_pair(w, w2, rng, share)
-            absorb(w, r1)
-            absorb(w2, r2)
-            hit("pair:evaluated alternately" + (", shared CVR objects" if share else ""))
-            k += 2
-        else:
-            absorb(w, run_world(w, rng))
+        try:
+            if rng.random() < 0.25:
+                share = rng.random() < 0.5
+                w2 = variant_world(rng, w) if share else gen_world(rng)
+                r1, r2 = run_pair(w, w2, rng, share)
+                absorb(w, r1)
+                absorb(w2, r2)
+                hit("pair:evaluated alternately" + (", shared CVR objects" if share else ""))
+                k += 2
+            else:
+                absorb(w, run_world(w, rng))
+                k += 1
+        except (TypeError, ValueError, KeyError, IndexError, AttributeError, ZeroDivisionError) as e:
+            # the library raised while building or evaluating assertions on a world the model accepts (on the unchanged
+            # tree this never happens): a broken correspondence, recorded once per exception text; the search goes on
+            # with the remaining worlds so that a concrete failing input can still be found
+            import traceback
+            tb = traceback.extract_tb(e.__traceback__)
+            if not tb or not tb[-1].filename.startswith(C.REPO):
+                raise
+            impl_raised[0] += 1
+            if impl_raised[0] > 200:
+                raise
+            what = f"implementation raised {type(e).__name__}: {e} at {os.path.basename(tb[-1].filename)}:{tb[-1].name} on a world the model accepts"
+            if not any(pb["what"] == what for pb in res.proof_breaks):
+                res.proof_breaks.append({"what": what, "output": "".join(traceback.format_exception(e))[-1500:],
+                                         "world": {k_: C.jsonable(v_) for k_, v_ in w.items() if k_ in ("via_all", "twice", "shared", "repr", "modes", "marks")}})
+            hit("world:implementation raised")
             k += 1
     # ---- awkward shares on short lists (to Coq as well), long lists and tiny margins (oracle only: the exact
     #      Fraction oracle does not depend on the length)
